@@ -437,7 +437,17 @@ class VMapped:
 
     def __call__(self, *args, **kw):
         if kw:
-            raise Top("vmap call with keyword arguments")
+            # keyword arguments of a vmapped function are always mapped along their leading axis
+            keys = list(kw)
+            f0, n_pos = self.f, len(args)
+            in_axes = self.in_axes
+            if isinstance(in_axes, list):
+                in_axes = tuple(in_axes)
+            if not isinstance(in_axes, tuple):
+                in_axes = (in_axes,) * n_pos
+            inner = VMapped(lambda *a: f0(*a[:n_pos], **dict(zip(keys, a[n_pos:]))),
+                            tuple(in_axes) + tuple((None if kw[k] is None else 0) for k in keys), self.out_axes)
+            return inner(*args, *[kw[k] for k in keys])
         in_axes = self.in_axes
         if isinstance(in_axes, list):
             in_axes = tuple(in_axes)
@@ -750,10 +760,19 @@ class ModelToken(OpaqueNode):
                 return t._attrs['n_out']
         return 1
 
+    def out_shape(self):
+        for t in self.trees:
+            if isinstance(t, OpaqueObj) and 'out_shape' in t._attrs:
+                return tuple(t._attrs['out_shape'])
+        return (self.n_out(),)
+
     def __call__(self, *args, **kw):
-        m = self.n_out()
+        shape = self.out_shape()
         a = tuple(fz(t) for t in self.trees) + tuple(fz(x) for x in args) + tuple(sorted(((k, fz(v)) for k, v in kw.items()), key=repr))
-        return AT((m,), np.array([Poly.atom(('S', Sym('net', k, *a))) for k in range(m)], dtype=object))
+        dat = np.empty(shape, dtype=object)
+        for idx in np.ndindex(shape):
+            dat[idx] = Poly.atom(('S', Sym('net', (idx[0] if len(idx) == 1 else idx), *a)))
+        return AT(shape, dat)
 
     def __repr__(self):
         return f"<model {self.trees}>"
